@@ -25,7 +25,7 @@ type SlotOp struct {
 }
 
 type NodeSpec struct {
-	ID      uint64   `json:"id"`
+	ID uint64 `json:"id"`
 	// ids of later incarnations: a node that left and joins again is a new
 	// node (identity is derived from the advertised address in production, so
 	// a new address means a new id)
@@ -82,9 +82,9 @@ type SchedSpec struct {
 	// victim sites: a site whose hash mixed with VictimSalt is 0 modulo
 	// VictimMod stalls the task that reaches it with probability 1/2 (a random
 	// small subset of sites per run, FoundationDB "buggify" style)
-	VictimSalt uint64 `json:"victim_salt"`
-	VictimMod  uint64 `json:"victim_mod"`
-	StallBudget int   `json:"stall_budget"` // at most this many stalls per run: most of the run makes progress
+	VictimSalt  uint64 `json:"victim_salt"`
+	VictimMod   uint64 `json:"victim_mod"`
+	StallBudget int    `json:"stall_budget"` // at most this many stalls per run: most of the run makes progress
 	// slow handlers: the tasks serving RPC method SlowMethod stall with
 	// probability SlowProb for up to SlowMax at every chord scheduling point
 	// they reach (a slow request thread: every window inside that handler opens)
@@ -94,24 +94,24 @@ type SchedSpec struct {
 }
 
 type Plan struct {
-	Bulk     bool                `json:"bulk,omitempty"` // several hundred keys (C07 Import cells)
-	Prop     string              `json:"prop"`
-	Profile  string              `json:"profile"`
-	Nodes    []NodeSpec          `json:"nodes"`
-	Keys     []string            `json:"keys"`
-	Stab     time.Duration       `json:"stab"`
-	Fix      time.Duration       `json:"fix"`
-	Pred     time.Duration       `json:"pred"`
-	Net      simnet.Config       `json:"net"`
-	Sched    SchedSpec           `json:"sched"`
-	Clients  []ClientSpec        `json:"clients,omitempty"`
-	Lookups  []LookupSpec        `json:"lookups,omitempty"`
-	Faults   []*simnet.Targeted  `json:"faults,omitempty"`
-	Triggers []Trigger           `json:"triggers,omitempty"`
-	Buggify  bool                `json:"buggify"`
-	MaxQuiet int                 `json:"max_quiet_periods"`
-	FinalLookups int             `json:"final_lookups,omitempty"`
-	Cell     string              `json:"cell,omitempty"` // enumerated fault cell (C07)
+	Bulk         bool               `json:"bulk,omitempty"` // several hundred keys (C07 Import cells)
+	Prop         string             `json:"prop"`
+	Profile      string             `json:"profile"`
+	Nodes        []NodeSpec         `json:"nodes"`
+	Keys         []string           `json:"keys"`
+	Stab         time.Duration      `json:"stab"`
+	Fix          time.Duration      `json:"fix"`
+	Pred         time.Duration      `json:"pred"`
+	Net          simnet.Config      `json:"net"`
+	Sched        SchedSpec          `json:"sched"`
+	Clients      []ClientSpec       `json:"clients,omitempty"`
+	Lookups      []LookupSpec       `json:"lookups,omitempty"`
+	Faults       []*simnet.Targeted `json:"faults,omitempty"`
+	Triggers     []Trigger          `json:"triggers,omitempty"`
+	Buggify      bool               `json:"buggify"`
+	MaxQuiet     int                `json:"max_quiet_periods"`
+	FinalLookups int                `json:"final_lookups,omitempty"`
+	Cell         string             `json:"cell,omitempty"` // enumerated fault cell (C07)
 }
 
 func pick[T any](r *simrt.Rand, xs ...T) T { return xs[r.Intn(len(xs))] }
@@ -283,6 +283,18 @@ func GenPlan(prop string, seed uint64, tier string) *Plan {
 		}
 		p.Nodes[i].Ops = []SlotOp{{Gap: g, Kind: "join", Via: r.Intn(n)}}
 	}
+	var leavers []int
+	if prop == "C09" && r.Chance(0.5) {
+		// lookups also have to terminate while nodes leave: some members leave gracefully during the
+		// lookup storm, and the storm asks for identifiers just behind a leaver (the gap it leaves
+		// between its predecessor and its successor until both have repaired their pointers)
+		for i := 1; i < n; i++ {
+			if r.Chance(0.4) {
+				p.Nodes[i].Ops = append(p.Nodes[i].Ops, SlotOp{Gap: gap(6 * p.Stab), Kind: "leave"})
+				leavers = append(leavers, i)
+			}
+		}
+	}
 	if churn {
 		collide := prop == "C06" || r.Chance(0.3)
 		for i := 0; i < n; i++ {
@@ -351,6 +363,12 @@ func GenPlan(prop string, seed uint64, tier string) *Plan {
 			for k := 0; k < 6; k++ {
 				ls.Keys = append(ls.Keys, pick(r, r.Uint64()%ringSize, ids[r.Intn(n)], (ids[r.Intn(n)]+1)%ringSize, hashes[r.Intn(len(hashes))]))
 			}
+			for _, li := range leavers {
+				ls.Keys = append(ls.Keys, (ids[li]+1)%ringSize, (ids[li]+ringSize-1)%ringSize)
+			}
+			if len(leavers) > 0 {
+				ls.Count += 40
+			}
 			p.Lookups = append(p.Lookups, ls)
 		}
 	}
@@ -405,6 +423,12 @@ func C07Cells() []string {
 				}
 			}
 		}
+	}
+	// a membership change that fails because it collides with another one (no network fault at all):
+	// the top node of the ring and its predecessor, or a joiner next to them, change at the same moment
+	// (listed several times: with no fault to place, only the schedule varies, so these cells get more runs)
+	for i := 0; i < 6; i++ {
+		cells = append(cells, "contend/leave+leave/none/top", "contend/leave+join/none/top", "contend/leave+leave/none/any")
 	}
 	return cells
 }
@@ -463,7 +487,33 @@ func genC07(p *Plan, r *simrt.Rand, seed uint64, hashes []uint64) {
 		f.Delay = 12 * time.Second
 	}
 	changeAt := time.Duration(n)*4*p.Stab + 20*time.Second
-	if scenario == "join" {
+	if scenario == "contend" {
+		// two changes at (almost) the same instant; which of them is refused and retried is the schedule's choice
+		order := make([]int, n)
+		for i := range order {
+			order[i] = i
+		}
+		sort.Slice(order, func(a, b int) bool { return ids[order[a]] < ids[order[b]] })
+		top, pred := order[n-1], order[n-2]
+		if occ == "any" {
+			k := r.Intn(n)
+			top, pred = order[k], order[(k+n-1)%n]
+		}
+		jitter := func() time.Duration { return time.Duration(r.Int63n(int64(30 * time.Millisecond))) }
+		leave := func(v int) {
+			if v == 0 {
+				return // slot 0 is the entry node of the loader
+			}
+			p.Nodes[v].Ops = append(p.Nodes[v].Ops, SlotOp{Gap: changeAt + jitter() - p.Nodes[v].Ops[0].Gap, Kind: "leave", Cell: true})
+		}
+		leave(top)
+		if rpc == "leave+leave" {
+			leave(pred)
+		} else {
+			p.Nodes[n].Ops = []SlotOp{{Gap: changeAt + jitter(), Kind: "join", Via: r.Intn(n), Cell: true}}
+		}
+		f = nil
+	} else if scenario == "join" {
 		p.Nodes[n].Ops = []SlotOp{{Gap: changeAt, Kind: "join", Via: r.Intn(n), Fault: f, Cell: true}}
 	} else {
 		v := 1 + r.Intn(n-1)
